@@ -6,7 +6,7 @@
 From Coq Require Import List ZArith String Bool Permutation Lia.
 From SCC Require Import Base.Sexp Lang.SynUtil Lang.FunSyn Model.Check Sem.FunTyping
   Proof.FunInd Proof.FunEq Proof.CheckAnn Proof.TypingReject Proof.CheckBuild Proof.CheckMono
-  Proof.CheckMonoSound Proof.CheckMonoProg Proof.CheckMonoComplete Proof.CheckMonoProgC.
+  Proof.CheckMonoSound Proof.CheckMonoProg Proof.CheckMonoComplete Proof.CheckMonoProgC Proof.CheckDecls.
 Import ListNotations.
 Open Scope list_scope.
 
@@ -432,11 +432,13 @@ Section FaithfulDefs.
   Proof.
     intros d st Hok Hmc Hmr Hmb Tb I. unfold def_ok in Hok.
     apply andb_true_iff in Hok. destruct Hok as [Hok Hk]. apply andb_true_iff in Hok. destruct Hok as [Hok Hwr].
-    apply andb_true_iff in Hok. destruct Hok as [Hnd Hwc].
+    apply andb_true_iff in Hok. destruct Hok as [Hnd Hwc]. apply andb_true_iff in Hnd. destruct Hnd as [Hmain Hnd].
     unfold def_check_gen. unfold ctx_no_dups. rewrite nodup_ctx_no_dups_go; [|assumption|intros ? ? []]. simpl.
     destruct (ctx_check_ok ts fs W _ st Hmc Hwc Tb I) as [st1 [H1 [I1 S1]]]. rewrite H1. simpl.
-    destruct (ty_check_mono_ok ts fs (W_ret _ _ W) _ st1 Hmr (tables_same _ _ _ _ Tb S1) I1 Hwr) as [st2 [H2 [I2 [S2 _]]]].
-    rewrite H2. simpl. assert (S02 : same_templates st st2) by eauto using same_templates_trans.
+    destruct (ty_check_mono_ok ts fs (W_ret _ _ W) _ st1 Hmr (tables_same _ _ _ _ Tb S1) I1 Hwr) as [st2a [H2 [I2a [S2a _]]]].
+    rewrite H2. simpl. assert (S02a : same_templates st st2a) by eauto using same_templates_trans.
+    destruct (main_ret_check_mono_ok ts fs W d st2a Hmain (tables_same _ _ _ _ Tb S02a) I2a) as [st2 [H2m [I2 S2]]].
+    rewrite H2m. simpl. assert (S02 : same_templates st st2) by eauto using same_templates_trans.
     destruct (check_term_faithful ts fs W WF (fdbody d) st2 (fdctx d) (fdret d) Hmb Hmc Hmr (tables_same _ _ _ _ Tb S02) I2 Hwc Hwr Hk)
       as [[[b' st3] [H3 [I3 [S3 G3]]]]|Hu].
     - simpl in I3, S3. rewrite H3. simpl. left. eexists _, st3. splits; eauto using same_templates_trans.
@@ -476,7 +478,7 @@ Proof.
   destruct (build_symbol_table_spec p st Hb) as [Tb [_ [Hty [Hc [Hd _]]]]].
   pose proof (mono_world_of_prog p Hm Hn) as W. pose proof (wf_world_of_prog p W Ht0) as WF.
   unfold check_before_fix, check_gen. rewrite Hb. simpl. unfold check_with_table_gen.
-  rewrite (check_type_decls_ok_conv _ _ st (fpdecls p) Tb); [|intros td Hin; destruct (Hps td Hin) as [? [? ?]]; auto]. simpl.
+  rewrite (check_type_decls_ok_conv _ _ st (fpdecls p) Tb); [|intros td Hin; destruct (Hps td Hin) as [? [? ?]]; auto|intros td Hin; destruct (Hps td Hin) as [? [? ?]]; auto]. simpl.
   rewrite defs_of_fdefs.
   destruct (check_defs_faithful _ _ W WF (fdefs (fpdecls p)) st) as [[ds' [st1 [H1 I1]]]|Hu]; [|exact Tb|apply minv_start; assumption| |].
   { intros d Hin. rewrite forallb_forall in Hdefs. destruct (W_defs _ _ W d Hin). splits; auto.
